@@ -471,13 +471,25 @@ def check_writes(repo, rep, mod):
                        want[cname]), sorted(touched),
                        ' and reaches the parent chain' if bad is not None
                        else ''), loc=mod.loc(m.node))
-    ms = mod.cls('MultiContext').methods.get('__setitem__')
-    ok = any(isinstance(w.target, ast.Subscript) and model.norm(
-        w.target) == 'self._context_list[0]'
-        for w in effects.writes_in(ms.node))
+    mc = mod.cls('MultiContext')
+    ms = mc.methods.get('__setitem__')
+    init = mc.methods['__init__']
+    attr = _attr_from_param(init, init.params()[1]) or '_context_list'
+    first = 'self.%s[0]' % attr
+    stores = [w for w in effects.writes_in(ms.node)
+              if w.kind in ('subscript', 'aug-subscript')]
+    others = [w for w in stores if model.norm(w.target) != first]
+    ok = any(model.norm(w.target) == first for w in stores) and not others
     rep.ob('R17e', ms.key + '/first-member', ok,
-           'a multi-context stores variables into its first member',
-           loc=mod.loc(ms.node))
+           'a multi-context stores variables into its first member, always '
+           '(`%s[name] = value`); it %s' % (
+               first, 'also stores into `%s`: an assignment can then '
+               'change a member that other contexts share while the first '
+               'member -- what `name in mc.first` and compositions over it '
+               'see -- stays unset' % model.norm(others[0].target)
+               if others else 'does not'),
+           loc=mod.loc(others[0].node if others else ms.node),
+           construct=model.norm(others[0].node) if others else '')
 
 
 def check_store_on_all_paths(repo, rep, mod):
